@@ -51,6 +51,9 @@ def gen_case(rng):
 def correspondence(ctx, batch):
     rng = ctx.rng("corr")
     registry = stages.make_registry()
+    for k in range(len(CLI_EXPRS) + ctx.n(20, 300)):
+        exprs = [CLI_EXPRS[k]] if k < len(CLI_EXPRS) else rng.sample(CLI_EXPRS, k=rng.randint(0, 3))
+        stages.stage_setargs(batch, [], exprs, rng.sample(gen.WORDS, k=rng.choice([0, 1, 2])), False, None)
     for _ in range(ctx.n(250, 4000)):
         samples, fields, regex = gen_case(rng)
         stages.stage_generate(batch, samples, registry, dict_fields=fields, dict_regex=regex)
@@ -163,9 +166,46 @@ def falsify(ctx):
                 hit.update({"sample": s, "fields": fields, "regex": regex})
                 yield hit
         ctx.sample({"sample": samples[0], "fields": fields, "regex": regex}, limit=2)
+    # the command-line form of the regular expressions
+    for k in range(len(CLI_EXPRS) + ctx.n(10, 200)):
+        exprs = [CLI_EXPRS[k]] if k < len(CLI_EXPRS) else rng.sample(CLI_EXPRS, k=rng.randint(2, 3))
+        try:
+            hit = check_cli_anchoring(exprs)
+        except re.error:
+            continue
+        ctx.case(("cli", tuple(exprs)), nontrivial=True)
+        if hit:
+            yield hit
+
+
+CLI_EXPRS = [r"\d+", r"\w+\$", r"^\d+$", r"^k\d", r"k\d$", r"a|b", r"node_\d+", r"x\$", r"[$]", r"(a)$", r"\^a", r"$", r"^",
+             r"\d+\\", r".*", r"[a-z]+\$\$"]
+CLI_KEYS = ["1", "12x", "x12", "USD$", "USD$rate", "k1", "k1x", "xk1", "a", "ab", "b", "node_1", "node_1x", "x$", "x$y", "$",
+            "^a", "1\\", "1\n", "ab$$", "ab$$c", ""]
+
+
+def check_cli_anchoring(exprs):
+    """`--dict-keys-regex E`: "^ and $ tokens will be added automatically" — the pattern the CLI stores for E matches a key
+    exactly when `^E$` does (the documented meaning, written out here with `re` and nothing from the implementation)"""
+    from json_to_models.cli import Cli
+    cli = Cli()
+    cli.set_args([], "flat", "base", None, [], list(exprs), [], False, None)
+    got = [[bool(p.match(k)) for k in CLI_KEYS] for p in cli.dict_keys_regex]
+    want = [[bool(re.compile("^" + e + "$").match(k)) for k in CLI_KEYS] for e in exprs]
+    if len(got) != len(want):
+        return {"kind": "cli-anchoring", "exprs": list(exprs),
+                "observed": f"{len(exprs)} expressions became {len(got)} patterns: {[p.pattern for p in cli.dict_keys_regex]!r}"}
+    for e, g, w, p in zip(exprs, got, want, cli.dict_keys_regex):
+        if g != w:
+            bad = [k for k, a, b in zip(CLI_KEYS, g, w) if a != b]
+            return {"kind": "cli-anchoring", "exprs": list(exprs),
+                    "observed": f"expression {e!r} is stored as {p.pattern!r}; keys decided differently from ^E$: {bad[:5]!r}"}
+    return None
 
 
 def replay(ctx, hit):
+    if hit.get("kind") == "cli-anchoring":
+        return check_cli_anchoring(hit["exprs"])
     try:
         return check_case(hit["sample"], hit["fields"], hit["regex"], stages.make_registry())
     except stages.TooCostly:
